@@ -3,8 +3,10 @@ import ast
 
 from .. import rules_cxx as rc
 from ..parse_model import ParseModel
-from ..pygrammar import combinator_functions, result_calls, const_values
+from ..pygrammar import combinator_functions
 from ..core import AnalysisError
+from ..pysym import alternatives, show
+from .. import symcat as sc
 
 EXPLANATION = (
     'Static conformance of depccg/parsing.h (clang AST) and the two grammar modules (Python AST) to the '
@@ -24,20 +26,24 @@ def head_uniformity(repo, rep, R='R1.4'):
         mod = repo.module(rel)
         consts = {}
         for name, fn in combinator_functions(mod):
-            calls = result_calls(mod, fn)
-            if not calls:
-                # a combinator may delegate; then it is analysed where the result is built
+            outs = [o for o in sc.outcomes(fn) if isinstance(o.result, dict)]
+            if not outs:
                 raise AnalysisError('%s: combinator %s builds no CombinatorResult' % (rel, name))
-            for rcall in calls:
+            seen_nodes = set()
+            for o in outs:
+                if id(o.node) in seen_nodes:
+                    continue
+                seen_nodes.add(id(o.node))
                 n += 1
-                v = const_values(rcall.args['head_is_left'], fn)
-                ok = v is not None and len(v) == 1 and isinstance(next(iter(v)), bool)
-                rep.check(ok, R, rcall.where, '%s:%s:head-constant' % (rel, name),
-                          '%s builds its result with constant head_is_left=%s' % (name, sorted(v) if v else '?'),
-                          '%s: head_is_left is not a single boolean constant (%s)'
-                          % (name, ast.unparse(rcall.args['head_is_left'])))
+                h = o.result['head_is_left']
+                vals = {v for _, v in alternatives(h)}
+                ok = len(vals) == 1 and all(v[0] == 'const' and isinstance(v[1], bool) for v in vals)
+                where = '%s:%s %s' % (rel, getattr(o.node, 'lineno', fn.lineno), name)
+                rep.check(ok, R, where, '%s:%s:head-constant' % (rel, name),
+                          '%s builds its result with constant head_is_left=%s' % (name, sorted(v[1] for v in vals) if ok else '?'),
+                          '%s: head_is_left is not a single boolean constant (%s)' % (name, show(h)))
                 if ok:
-                    consts.setdefault(next(iter(v)), []).append(name)
+                    consts.setdefault(next(iter(vals))[1], []).append(name)
         rep.check(len(consts) == 1, R, '%s:1 <module>' % rel, '%s:head-uniform' % rel,
                   'all binary rules of %s share head_is_left=%s' % (rel, list(consts)),
                   '%s mixes head directions: %s' % (rel, {k: v for k, v in consts.items()}))
